@@ -359,7 +359,7 @@ func buildStreams() []*streamEntry {
 		rt := reflectTypes[spell[sub]]
 		var buf bytes.Buffer
 		if err := encoding.NewEncoder(encoding.DefaultCap(), &buf).Encode(fill(rt.typ, i).Interface()); err != nil {
-			return streamInput{rt.name, nil, func() outcome { return outcome{false, "stream generator: encode: " + err.Error()} }}
+			return streamInput{rt.name, nil, func() outcome { return outcome{accepted: false, err: "stream generator: encode: " + err.Error()} }}
 		}
 		return simple(rt.name, append([]byte{}, buf.Bytes()...), func(in []byte) error {
 			return encoding.NewDecoder(encoding.DefaultCap(), bytes.NewReader(in)).Decode(reflect.New(rt.typ).Interface())
@@ -448,6 +448,9 @@ func streamsCoverTargets(ts []*target, ss []*streamEntry) error {
 	}
 	want := map[string]bool{}
 	for _, t := range ts {
+		if t.aux {
+			continue // family-only targets (recursive.go)
+		}
 		want[t.entry] = true
 		if !have[t.entry] {
 			return fmt.Errorf("entry point %s has no input stream (checks/c07/stream.go)", t.entry)
